@@ -24,8 +24,9 @@ def in_threads(jobs, max_threads: int = 8):
 # ---------------------------------------------------------------------------------------------------------
 # exact numbers
 
-def to_fraction(x):
-    """SymPy / Python number -> Fraction, or None when x is not (syntactically or after evaluation) rational."""
+def to_fraction(x, cheap: bool = False):
+    """SymPy / Python number -> Fraction, or None when x is not (syntactically or after evaluation) rational.
+    cheap=True tries only expand_trig (no simplify)."""
     import sympy as sp
     if isinstance(x, bool):
         return None
@@ -41,8 +42,9 @@ def to_fraction(x):
         return None
     # exact rewrites only (no numeric guessing): trigonometric functions of atan/acos of rationals become
     # algebraic numbers, which are rational at Pythagorean points
-    for attempt in (sp.expand_trig, lambda e: sp.radsimp(sp.expand_trig(e)), lambda e: sp.simplify(sp.expand_trig(e)),
-                    sp.simplify, lambda e: sp.simplify(sp.trigsimp(e))):
+    attempts = (sp.expand_trig, lambda e: sp.radsimp(sp.expand_trig(e)), lambda e: sp.simplify(sp.expand_trig(e)),
+                sp.simplify, lambda e: sp.simplify(sp.trigsimp(e)))
+    for attempt in attempts[:1] if cheap else attempts:
         try:
             y = attempt(x)
         except Exception:  # pylint: disable=broad-except
@@ -140,17 +142,27 @@ def sph_frame(polar, azimuth):
     return ((st * cp, st * sp_, ct), (ct * cp, ct * sp_, -st), (-sp_, cp, 0))
 
 
-def compare_exact(expr, expected: Fraction) -> str:
-    """'equal' (exactly, by exact rewriting), 'different' (exactly or numerically to 40 digits), or
-    'numeric-equal' (SymPy could not reduce the value to a rational but it agrees to 40 digits: undecided)."""
+def exact_value(expr, expected: Fraction):
+    """-> (verdict, real value as Fraction or None).  verdict: 'equal' (exactly, by exact rewriting), 'different'
+    (exactly, or numerically to 40 digits), 'numeric-equal' (agrees to 40 digits but SymPy could not reduce the
+    value to a rational: undecided).  The numeric comparison goes before any expensive simplification, so a wrong
+    value is never costly."""
     import sympy as sp
-    f = to_fraction(expr)
+    f = to_fraction(expr, cheap=True)
     if f is not None:
-        return "equal" if f == expected else "different"
+        return ("equal" if f == expected else "different"), f
     try:
         d = sp.N(sp.sympify(expr) - sp.Rational(expected.numerator, expected.denominator), 60)
-        if d.is_number and d.is_finite and abs(d) < sp.Float(10) ** -40:
-            return "numeric-equal"
+        close = bool(d.is_number and d.is_finite and abs(d) < sp.Float(10) ** -40)
     except Exception:  # pylint: disable=broad-except
-        pass
-    return "different"
+        close = False
+    if not close:
+        return "different", None
+    f = to_fraction(expr)
+    if f is None:
+        return "numeric-equal", None
+    return ("equal" if f == expected else "different"), f
+
+
+def compare_exact(expr, expected: Fraction) -> str:
+    return exact_value(expr, expected)[0]
